@@ -94,7 +94,11 @@ def req(method, path, body=None, browser=False, raw=None):
 
 def wire(r):
     body = r["raw"] if r["raw"] is not None else (text(r["json"]) if r["json"] is not None else "")
-    return {"method": r["method"], "path": r["path"], "body": body, "ua": "Mozilla/5.0 (X11)" if r["browser"] else ""}
+    # a request names things by path segment: characters that cannot stand for themselves in a URL path (a space, ...) are
+    # percent-encoded on the wire; '+' and the other sub-delimiters stand for themselves
+    from urllib.parse import quote
+    path = "/".join(quote(seg, safe="+:@~.-_!$&'()*,;=") for seg in r["path"].split("/"))
+    return {"method": r["method"], "path": path, "body": body, "ua": "Mozilla/5.0 (X11)" if r["browser"] else ""}
 
 
 def coq_req(r):
